@@ -39,6 +39,8 @@ func (o pop) String() string {
 		return fmt.Sprintf("h%d=h%d.Slice(0,%d)", o.H, o.H, o.A)
 	case "gc":
 		return "runtime.GC()"
+	case "copy":
+		return "q := p (copy of the allocator value; Get and Put alternate between q and p from here on)"
 	}
 	return fmt.Sprintf("h%d.%s", o.H, o.K)
 }
@@ -63,7 +65,12 @@ type pworld struct {
 	t    int
 	ctl  *poolctl.Seq
 	pool dyn.Pool
-	out  []*pbuf
+	// copyOf, once the history contains "copy", is a copy of the allocator value made at that point;
+	// from then on Get and Put go through the copy and the original in turns (a copy of the value is a
+	// handle to the same pool)
+	copyOf dyn.Pool
+	turn   int
+	out    []*pbuf
 	// keyed by address only (uintptr): the model must not keep buffer headers alive, or finalizers a
 	// changed tree attaches to them could never run; pooled and checked-out buffers are alive anyway
 	free  map[uintptr]*pbuf // shadows of pooled items (state when they were put)
@@ -111,6 +118,18 @@ func newPWorld(cs c10Case) (*pworld, func()) {
 
 func (w *pworld) nfree() int { return len(w.free) }
 
+// handle returns the allocator value the next pool operation goes through.
+func (w *pworld) handle() dyn.Pool {
+	if w.copyOf == nil {
+		return w.pool
+	}
+	w.turn++
+	if w.turn%2 == 1 {
+		return w.copyOf
+	}
+	return w.pool
+}
+
 // sync compares an outstanding buffer with its shadow.
 func (w *pworld) cmp(p *pbuf) string {
 	if p.b.Len() != p.n {
@@ -138,7 +157,7 @@ func (w *pworld) apply(o pop) (fs []F) {
 	case "get":
 		w.answ = []int{o.A}
 		var g dyn.Buf
-		if pn, msg := dyn.Try(func() { g = w.pool.Get() }); pn {
+		if pn, msg := dyn.Try(func() { g = w.handle().Get() }); pn {
 			fail("panic", "Get panicked: %s", msg)
 			return
 		}
@@ -194,6 +213,10 @@ func (w *pworld) apply(o pop) (fs []F) {
 			fb.SetSample(i, dyn.Tok(w.t, 0))
 		}
 		w.out = append(w.out, &pbuf{b: g, cells: make([]int64, C*K), n: C * L})
+		return
+	}
+	if o.K == "copy" {
+		w.copyOf = w.pool.Copy()
 		return
 	}
 	p := w.out[o.H]
@@ -254,7 +277,7 @@ func (w *pworld) apply(o pop) (fs []F) {
 		runtime.Gosched()
 	case "put":
 		accept := len(p.cells) == C*K
-		pn, msg := dyn.Try(func() { w.pool.Put(p.b) })
+		pn, msg := dyn.Try(func() { w.handle().Put(p.b) })
 		if accept {
 			if pn {
 				fail("put-panic", "Put of a buffer with the pool's capacity panicked: %s", msg)
@@ -287,6 +310,9 @@ func (w *pworld) ops(maxOut int) []pop {
 		for a := 0; a <= w.nfree(); a++ {
 			r = append(r, pop{K: "get", A: a})
 		}
+	}
+	if w.copyOf == nil && len(w.free)+len(w.out) > 0 { // copy the allocator value once it has been used
+		r = append(r, pop{K: "copy"})
 	}
 	C := w.cs.C
 	for h, p := range w.out {
@@ -345,6 +371,9 @@ func (w *pworld) key() [16]byte {
 		enc(p)
 	}
 	buf = append(buf, 0xfe)
+	if w.copyOf != nil {
+		buf = append(buf, 0xfd, byte(w.turn%2))
+	}
 	for _, ptr := range w.order {
 		if p, ok := w.free[ptr]; ok {
 			enc(p)
@@ -365,10 +394,13 @@ func c10Replay(cs c10Case, checkFrom int) (w *pworld, fs []F) {
 		}
 		f := w.apply(o)
 		if len(f) > 0 {
-			if i < checkFrom {
-				panic(fmt.Sprintf("c10: replayed prefix fails at op %d (%s): %s", i, o, f[0].Msg))
-			}
 			for k := range f {
+				if i < checkFrom {
+					// this prefix passed when it was explored: what the library does depends on something
+					// besides the history (garbage collection, finalizers, time)
+					f[k].Key += "/not-deterministic"
+					f[k].Msg += " (the same history passed when it was first explored: the outcome depends on something besides the calls made, such as garbage collection or finalizers)"
+				}
 				f[k].Msg = fmt.Sprintf("[PoolAlloc[%s](C=%d,L=%d,K=%d)%s] history %v :: %s", cs.T, cs.C, cs.L, cs.K, map[bool]string{true: " real sync.Pool", false: ""}[cs.Real], cs.Ops[:i+1], f[k].Msg)
 			}
 			return w, f
@@ -396,7 +428,11 @@ func c10BFS(c *core.Ctx, cfg c10Cfg, conform bool) (states, trans, conformed int
 			path := frontier[i]
 			cs := base
 			cs.Ops = path
-			w, _ := c10Replay(cs, len(path))
+			w, pfs := c10Replay(cs, len(path))
+			if len(pfs) > 0 {
+				c.Fail(cs, pfs...)
+				return
+			}
 			ops := w.ops(cfg.maxOut)
 			var local [][]pop
 			for _, o := range ops {
@@ -582,7 +618,7 @@ func init() {
 			c.Set("evaluations", trans)
 			c.Set("distinct_nontrivial", states)
 			c.Set("configs", report)
-			c.Set("rule", "breadth-first search over histories of {get (environment answer: any pooled item or New), appendSample, append of one frame (may grow and leave the pool's storage), stamp the whole capacity, set first/at-length/last cell, reslice from frame 0 to every length, put} on one pool with <= 3 buffers outstanding, for 7 small allocator shapes x 13 element types and 4 long ones (16, 40, 500, 1025 frames; up to 5000 samples in the long linear histories) x 2 types; every Get is judged: shape, bit depth, zero over the whole capacity, handle distinct from and storage disjoint from every outstanding buffer; states deduplicated by a canonical key that keeps what each pooled item held when it was put")
+			c.Set("rule", "breadth-first search over histories of {get (environment answer: any pooled item or New), appendSample, append of one frame (may grow and leave the pool's storage), stamp the whole capacity, set first/at-length/last cell, reslice from frame 0 to every length, put, copy the allocator value (once; Get and Put then alternate between the copy and the original)} on one pool with <= 3 buffers outstanding, for 7 small allocator shapes x 13 element types and 4 long ones (16, 40, 500, 1025 frames; up to 5000 samples in the long linear histories) x 2 types; every Get is judged: shape, bit depth, zero over the whole capacity, handle distinct from and storage disjoint from every outstanding buffer; states deduplicated by a canonical key that keeps what each pooled item held when it was put")
 			c.Assume("sync.Pool is replaced by the overlay-injected shim whose Get may return any pooled item or call New (an over-approximation of sync.Pool, incl. items dropped by the GC); the histories of two element types are re-run on the real sync.Pool (shim pass-through) as conformance check", "use after put and double put are outside the property's domain")
 		},
 		RunCase: func(c *core.Ctx, raw json.RawMessage) []F {
